@@ -47,6 +47,7 @@ def c06(ctx: Ctx):
                 "pipe / space delimited arrays; multipart parts as application/json (typed, nested object) and as files, 3 boundary spellings; "
                 "14 kinds of body text that encode nothing (must be rejected); pretty / escaped JSON and flow YAML spellings; the decoder alias media types; "
                 "the opt-in zip decoder; text/csv; a deepObject object property of a urlencoded body; booleans and numbers (schema S9) under every decoder; "
+                "Encoding Object style x explode (each possibly absent) x arrays of every primitive type; every kind of token after a complete JSON value; "
                 "every case distinct and judged")
     ctx.validate("Trace_C06", "Trace_C06.cfg", logp, chunk_lines=480)
     if not ctx.replay:
